@@ -33,24 +33,4 @@ func TestWitnesses(t *testing.T) {
 		}
 		return ""
 	})
-	ev.Witness(t, "C09-weight-only-update-ignored", func() string {
-		var failure string
-		var m *wmkit.Machine
-		m = wmkit.New(nil, func(f string, a ...any) {
-			if failure == "" {
-				failure = fmt.Sprintf(f, a...)
-			}
-			panic("stop")
-		})
-		func() {
-			defer func() { recover() }()
-			k1 := make([]byte, 32)
-			m.UpdateW(k1, []byte{9, 9}, 3)
-			m.UpdateW(k1, []byte{9, 9}, 5) // same value, new weight
-		}()
-		if failure != "" {
-			return m.History() + ": " + failure
-		}
-		return ""
-	})
 }
